@@ -232,12 +232,60 @@ def immediate(run, F, E):
                    key='%s::%s is not request + processing' % (tk, m))
 
 
+def payload_comparison(run, F, rule='C02.f'):
+    """the equality of two requests compares *all* payload bytes: a memcmp over the storage must span the whole storage, a hand-written
+    byte loop must be a counted loop 0..extent whose counter cannot wrap below the extent. Returns evaluator models for the
+    hand-written comparison helpers that were found complete (the comparison-domain evaluator has one opaque value per byte array)."""
+    from lint import loops
+    models = {}
+    for rec in F.recs('TransitionT'):
+        fields = {f['n']: f for f in rec.get('fields', [])}
+        st_f = fields.get('storage')
+        if st_f is None or not st_f.get('extent'):
+            continue
+        ext = st_f['extent']
+        for fn in F.fns:
+            if fn.cls != rec['name'] or fn.body is None:
+                continue
+            # (1) memcmp over the storage
+            for e in ir.all_exprs(fn):
+                if e['k'] == 'call' and e.get('m') in ('memcmp', '__builtin_memcmp') and len(e.get('args', [])) == 3 and 'storage' in ir.pp(e['args'][0]):
+                    n = ir.const_val(e['args'][2])
+                    run.ob(rule, 'TransitionT (%d payload bytes): %s compares all %d bytes' % (ext, fn.m, ext), n == ext, where=e.get('l') or fn.pat,
+                           detail={'bytes compared': n, 'payload bytes': ext}, key='the request comparison does not cover the whole payload')
+            # (2) a byte loop over the storage
+            lps = [s_ for s_ in ir.walk_stmts(fn.body) if s_.get('s') in ('for', 'while') and
+                   any(x['k'] == 'idx' and 'storage' in ir.pp(x['b']) for t in ir.walk_stmts(s_.get('body')) for e2 in ir.stmt_exprs(t) for x in ir.walk(e2))]
+            if not lps or fn.kind in ('ctor', 'dtor') or fn.m in ('operator=',):
+                continue
+            if len(lps) != 1:
+                raise AnalysisBroken('%s: %d loops over the payload storage' % (fn.short, len(lps)))
+            B = loops.bounded(fn, lps[0])
+            if B is None:
+                raise AnalysisBroken('%s: the loop over the payload storage is not a counted loop' % fn.short)
+            ty = B['var'].get('ty', '')
+            cmax = 255 if 'char' in ty else 65535 if 'short' in ty else 2 ** 32 - 1
+            full = B['start'] == 0 and B['per_iteration'] == 1 and not B['problems'] and cmax >= ext and \
+                ((B['bound_op'] == '<' and B['bound_val'] == ext) or (B['bound_op'] == '<=' and B['bound_val'] == ext - 1) or (B['bound_op'] == '!=' and B['bound_val'] == ext))
+            run.ob(rule, 'TransitionT (%d payload bytes): the byte loop of %s runs over all %d bytes' % (ext, fn.m, ext), full, where=fn.pat,
+                   detail={'bound': (B['bound_op'], B['bound_val']), 'counter type': ty, 'payload bytes': ext}, key='the request comparison does not cover the whole payload')
+            if full:
+                rets = [s_ for s_ in ir.walk_stmts(fn.body) if s_.get('s') == 'ret']
+                last = fn.body['b'][-1] if fn.body.get('s') == 'block' and fn.body.get('b') else None
+                k_last = ir.const_val(last['e']) if last is not None and last.get('s') == 'ret' and last.get('e') is not None else None
+                if len(rets) == 2 and k_last in (0, 1) and len(fn.params) == 1:
+                    # `all bytes equal` is returned after the loop (k_last), the opposite from inside it
+                    models[fn.id] = (lambda kl: (lambda ev, this, args: (kl if ev.raw(this['storage']) == ev.raw(args[0]['storage']) else 1 - kl)))(k_last)
+    return models
+
+
 def drop_condition(run, F):
     """In the substitution loops a request may be dropped without being shown to any guard only if it is identical to the
     transition accepted so far (origin, destination, method, payload presence, payload bytes). Decided by evaluating, on the
     comparison domain of (accepted, outstanding), the loop's own branch conditions that control whether a guard round happens --
     located through the CFG (the branches the guard call is control-dependent on), not through names or polarity."""
     E = effects.Effects(F)
+    models = payload_comparison(run, F)
     sites = []
     for root_name in ('processRequest', 'initialEnter'):
         for root in F.find('R_', root_name):
@@ -302,6 +350,7 @@ def drop_condition(run, F):
                     req['payloadSet'], req['storage'] = rp, rs
                 this = Obj(_core=Obj(request=req, registry=Obj(requested=255, active=0)))
                 ev = Evaluator(F)
+                ev.models = models
                 env = {cur_id: cur}
                 # named temporaries / cached references declared in the function (`auto& request = _core.request`)
                 for t in ir.walk_stmts(fn.body):
@@ -374,6 +423,11 @@ def run(run):
             run.guard('substitution loops', _c04.substitution_loops, run, F, E, F.label())
             facts.drop(F)
             cfgmod.clear_cache()
+    # the request comparison on every payload type of witness w_pay (sizes 1 .. 300 bytes: beyond the range of an 8-bit byte counter)
+    for v in facts.variants(run.tier):
+        F = facts.load('w_pay', '', v)
+        run.guard('payload comparison', payload_comparison, run, F)
+        facts.drop(F)
     run.relabel('C04.a', 'C02.h')
     run.floor('C02.h', 30)
     run.floor('C02.i', 8)
